@@ -104,6 +104,8 @@ class HyperparameterRangeContinuous(HyperparameterRange):
     ):
         super().__init__(name)
         assert lower_bound <= upper_bound
+        # Bounds given as int must not turn decoded values into int
+        lower_bound, upper_bound = float(lower_bound), float(upper_bound)
         self.lower_bound = lower_bound
         self.upper_bound = upper_bound
         self.scaling = scaling
